@@ -228,7 +228,17 @@ func (n *nemesis) run() {
 			to := (lead + 1 + n.rng.Intn(nReplica-1)) % nReplica
 			err := n.c.reps[lead].TransferTo(uint64(to + 1))
 			n.log(fmt.Sprintf("transfer %d->%d", lead, to), err)
-		case x < 70 || !n.procs:
+		case n.procs && x >= 82:
+			k := n.c.kids[victim]
+			k.Pause()
+			n.log(fmt.Sprintf("pause %d (leader=%d)", victim, lead), nil)
+			alive := n.sleep(time.Duration(1200+n.rng.Intn(3000)) * time.Millisecond)
+			k.Resume()
+			n.log(fmt.Sprintf("resume %d", victim), nil)
+			if !alive {
+				return
+			}
+		case x < 65 || !n.procs:
 			err := n.c.reps[victim].CloseNS()
 			n.log(fmt.Sprintf("stop %d (leader=%d)", victim, lead), err)
 			alive := n.sleep(downFor)
@@ -533,6 +543,7 @@ func main() {
 		wg.Wait()
 		close(hintStop)
 		m.LoadUs = nowUs() - loadStart
+		loadEnd := nowUs()
 		m.Nemesis = nem.events
 
 		// ---- phase 3: quiescence. Everything up again, a leader, a barrier write, equal applied indexes.
@@ -563,6 +574,11 @@ func main() {
 				}
 				time.Sleep(200 * time.Millisecond)
 			}
+			// a proposal whose client has given up can still commit until its own deadline (proposeTimeout 4s):
+			// wait that long after the last client stopped, so that nothing lands between two replica dumps
+			if rest := loadEnd + 4500000 - nowUs(); rest > 0 {
+				time.Sleep(time.Duration(rest) * time.Microsecond)
+			}
 			m.SettleIndex, settled = c.waitSettled(60 * time.Second)
 		}
 		m.Settled = settled
@@ -574,8 +590,9 @@ func main() {
 		m.Keys = len(keys)
 		m.Dumps = make([]map[string]string, len(c.reps))
 		m.DumpErr = make([]string, len(c.reps))
-		if settled {
+		for try := 0; settled && try < 3; try++ {
 			for i, r := range c.reps {
+				m.Dumps[i], m.DumpErr[i] = nil, ""
 				d, err := r.Dump(keys)
 				if err != nil {
 					m.DumpErr[i] = err.Error()
@@ -584,7 +601,14 @@ func main() {
 				m.Dumps[i] = d
 			}
 			m.LogCheck = checkLogs(c)
+			// the dumps are one consistent cut only if nothing was applied while they were taken
+			idx, ok := c.waitSettled(20 * time.Second)
+			if ok && idx == m.SettleIndex {
+				break
+			}
+			m.SettleIndex, settled = idx, ok
 		}
+		m.Settled = settled
 		tfin := nowUs() + 1000
 		for _, k := range keys {
 			g := groups[k]
